@@ -134,6 +134,21 @@ func runC08(c *core.Ctx) {
 					c.Obs("index_grid_cases", 1)
 					c.Distinct("grid", src, env.String())
 				}
+				if form == 0 && iv.K == gen.KInt {
+					// the same index in another integer width (int64, uint8, a named integer type, ...), and as the result of a numeric filter
+					for w := 0; w < 3; w++ {
+						bind := gen.CanonEnv(env)
+						bind["i"] = gen.Realise(iv, c.Rand(idx, uint64(w)), gen.Rep{Widths: true, Unsigned: true, Named: true}, false)
+						if modelCompare(c, e, m, prog, env, bind, gen.DefaultStyle, "index-grid-width", "an index is a number: its integer width or named type must not matter") {
+							c.Obs("index_grid_width_cases", 1)
+							c.Distinct("gridw", src, gen.DescribeEnv(bind))
+						}
+					}
+					exp, st := m.Render(prog, env)
+					if st == ref.OK {
+						expectOut(c, e, "{% assign j = i | divided_by: 1 %}<{{ a[j] }}>|{% assign k = i | times: 2 | divided_by: 2 %}<{{ a[k] }}>", gen.CanonEnv(env), exp+"|"+exp, "index-grid-computed", "an index computed by a numeric filter indexes like the number it is", nil)
+					}
+				}
 			}
 		}
 	}
